@@ -3,9 +3,11 @@ import AcraModel.KeystoreSec.Concurrent
 Driver ops for C17: replay an observed global order of back-end calls through the model.
 
 `C17.replay <nrings> <ring>… <nthreads> <thread>… <sched>`
-* ring   = `<keys>;<current>` with keys = comma-joined `seq.state.data` or `-`
+* ring   = `<keys>;<current>` with keys = comma-joined `seq.state.data` or `-`; `MISSING` = the ring
+  file does not exist (as initial ring; a thread's snapshot of it is the empty ring `-;-1`)
 * thread = `<path>|<snapshot ring>|<ops joined by +>` (ops: `A<data>` addKey, `C<seq>` setCurrent,
-  `S<seq>.<state>` setState, `D<seq>` destroy, `R` re-read, `I<ring>` import; `-` = no ops)
+  `S<seq>.<state>` setState, `D<seq>` destroy, `R` re-read, `I<ring>` import, `O` OpenKeyRingRW;
+  `-` = no ops)
 * sched  = comma-joined thread ids, one per observed back-end call (`-` = empty)
 
 Result: `T <calls joined by />  final <ring>…  res <per-thread outcomes>`; a scheduled thread that
@@ -34,6 +36,7 @@ def parseRing (s : String) : Option Ring :=
 
 def parseOp (s : String) : Option Op :=
   if s = "R" then some .refresh
+  else if s = "O" then some .open
   else
     let body := (s.drop 1).toString
     match s.take 1 |>.toString with
@@ -50,7 +53,7 @@ def parseThread (s : String) : Option Handle :=
   match s.splitOn "|" with
   | [p, snap, ops] => do
     let p ← p.toNat?
-    let snap ← parseRing snap
+    let snap ← if snap = "MISSING" then some emptyRing else parseRing snap
     let ops ← if ops = "-" then some [] else (ops.splitOn "+").mapM parseOp
     pure ⟨p, snap, [], ops, [], .idle⟩
   | _ => none
@@ -65,6 +68,7 @@ def showCall (i : Nat) : Call → String
   | .rlock => s!"{i}RL"
   | .runlock => s!"{i}RU"
   | .get p v => s!"{i}G{p}={showRing v}"
+  | .getMissing p => s!"{i}G{p}=MISSING"
   | .put p v ok => s!"{i}P{p}={showRing v}=" ++ (if ok then "ok" else "fail")
   | .rename p => s!"{i}N{p}"
   | .none => s!"{i}BLOCKED"
@@ -111,7 +115,7 @@ def handle (op : String) (args : List String) : Option String :=
   | "replay", nr :: rest => do
     let nr ← nr.toNat?
     let (rs, rest) ← takeN nr rest
-    let rings ← rs.mapM parseRing
+    let rings ← rs.mapM fun r => if r = "MISSING" then some none else (parseRing r).map some
     match rest with
     | nt :: rest => do
       let nt ← nt.toNat?
@@ -121,12 +125,13 @@ def handle (op : String) (args : List String) : Option String :=
       | [sched] => do
         let sched ← if sched = "-" then some [] else (sched.splitOn ",").mapM String.toNat?
         let dummy : Handle := ⟨0, ⟨[], noKey⟩, [], [], [], .idle⟩
-        let s0 : St := { cur := fun p => rings.getD p ⟨[], noKey⟩, new := fun _ => none, writer := none, readers := [],
-                         h := fun i => threads.getD i dummy, commits := [] }
+        let s0 : St := { cur := fun p => ((rings.getD p none).getD emptyRing), new := fun _ => none, writer := none, readers := [],
+                         h := fun i => threads.getD i dummy, commits := [],
+                         ex := fun p => (rings.getD p (some emptyRing)).isSome }
         let (s1, calls) := replayLoop s0 sched []
         let s2 := flushInternal s1 nt
         let callsS := if calls.isEmpty then "-" else "/".intercalate calls
-        let finals := " ".intercalate ((List.range nr).map fun p => showRing (s2.cur p))
+        let finals := " ".intercalate ((List.range nr).map fun p => if s2.ex p then showRing (s2.cur p) else "MISSING")
         let res := " ".intercalate ((List.range nt).map fun i => showRes (s2.h i))
         pure s!"T {callsS} final {finals} res {res}"
       | _ => none
